@@ -92,7 +92,114 @@ def flip_comparisons(tree):
     return T().visit(tree)
 
 
-TRANSFORMS = {"add_logging": add_logging, "annotate_locals": annotate_locals, "rename_self": rename_self, "flip_comparisons": flip_comparisons}
+def _not_njit_functions(tree):
+    out = []
+    def rec(n, inside):
+        for ch in ast.iter_child_nodes(n):
+            if isinstance(ch, ast.FunctionDef):
+                nj = inside or _is_njit(ch)
+                if not nj:
+                    out.append(ch)
+                rec(ch, nj)
+            else:
+                rec(ch, inside)
+    rec(tree, False)
+    return out
+
+
+def _rewrite_blocks(fn, rewrite):
+    """apply `rewrite(stmt) -> list of stmts` to every statement list inside fn (not descending into nested defs twice)"""
+    for node in ast.walk(fn):
+        for fld in ("body", "orelse", "finalbody"):
+            blk = getattr(node, fld, None)
+            if isinstance(blk, list) and blk and isinstance(blk[0], ast.stmt):
+                new = []
+                for st in blk:
+                    new.extend(rewrite(st))
+                setattr(node, fld, new)
+
+
+def return_via_local(tree):
+    """`return <expr>` -> `result_ = <expr>; return result_` for non-trivial expressions (not in generators / compiled code)"""
+    for fn in _not_njit_functions(tree):
+        def rw(st):
+            if isinstance(st, ast.Return) and st.value is not None and not isinstance(st.value, (ast.Name, ast.Constant)):
+                a = ast.copy_location(ast.Assign(targets=[ast.Name(id="result_", ctx=ast.Store())], value=st.value), st)
+                r = ast.copy_location(ast.Return(value=ast.Name(id="result_", ctx=ast.Load())), st)
+                return [a, r]
+            return [st]
+        _rewrite_blocks(fn, rw)
+    return tree
+
+
+def split_tuple_assign(tree):
+    """`a, b = x, y` -> `a = x; b = y` when no target name occurs in the values (so the order does not matter)"""
+    for fn in [n for n in ast.walk(tree) if isinstance(n, ast.FunctionDef)]:
+        def rw(st):
+            if isinstance(st, ast.Assign) and len(st.targets) == 1 and isinstance(st.targets[0], ast.Tuple) and isinstance(st.value, ast.Tuple) \
+                    and len(st.targets[0].elts) == len(st.value.elts):
+                tnames = {ast.unparse(t) for t in st.targets[0].elts}
+                used = {ast.unparse(x) for v in st.value.elts for x in ast.walk(v) if isinstance(x, (ast.Name, ast.Attribute, ast.Subscript))}
+                if not (tnames & used):
+                    return [ast.copy_location(ast.Assign(targets=[t], value=v), st) for t, v in zip(st.targets[0].elts, st.value.elts)]
+            return [st]
+        _rewrite_blocks(fn, rw)
+    return tree
+
+
+def expand_augassign(tree):
+    """`x op= y` -> `x = x op y` for name / subscript / attribute targets"""
+    import copy
+    for fn in [n for n in ast.walk(tree) if isinstance(n, ast.FunctionDef)]:
+        def rw(st):
+            if isinstance(st, ast.AugAssign):
+                load = copy.deepcopy(st.target)
+                for x in ast.walk(load):
+                    if hasattr(x, "ctx"):
+                        x.ctx = ast.Load()
+                return [ast.copy_location(ast.Assign(targets=[st.target], value=ast.BinOp(left=load, op=st.op, right=st.value)), st)]
+            return [st]
+        _rewrite_blocks(fn, rw)
+    return tree
+
+
+def listcomp_to_loop(tree):
+    """`x = [e for t in it]` (one generator, no condition) -> `x = []` + `for t in it: x.append(e)` in non-compiled functions"""
+    for fn in _not_njit_functions(tree):
+        def rw(st):
+            if isinstance(st, ast.Assign) and len(st.targets) == 1 and isinstance(st.targets[0], ast.Name) and isinstance(st.value, ast.ListComp) \
+                    and len(st.value.generators) == 1 and not st.value.generators[0].ifs and not st.value.generators[0].is_async:
+                g = st.value.generators[0]
+                nm = st.targets[0].id
+                # the comprehension variable must not clash with the target or be used afterwards: keep it simple, require distinct names
+                if nm in {x.id for x in ast.walk(st.value) if isinstance(x, ast.Name)}:
+                    return [st]
+                init = ast.copy_location(ast.Assign(targets=[ast.Name(id=nm, ctx=ast.Store())], value=ast.List(elts=[], ctx=ast.Load())), st)
+                app = ast.Expr(value=ast.Call(func=ast.Attribute(value=ast.Name(id=nm, ctx=ast.Load()), attr="append", ctx=ast.Load()), args=[st.value.elt], keywords=[]))
+                loop = ast.copy_location(ast.For(target=g.target, iter=g.iter, body=[app], orelse=[]), st)
+                return [init, loop]
+            return [st]
+        _rewrite_blocks(fn, rw)
+    return tree
+
+
+def drop_else_after_return(tree):
+    """`if c: ...return/raise/continue` `else: B`  ->  `if c: ...` followed by B"""
+    for fn in [n for n in ast.walk(tree) if isinstance(n, ast.FunctionDef)]:
+        def rw(st):
+            if isinstance(st, ast.If) and st.orelse and st.body and isinstance(st.body[-1], (ast.Return, ast.Raise, ast.Continue, ast.Break)):
+                rest = st.orelse
+                st.orelse = []
+                return [st] + rest
+            return [st]
+        for _ in range(3):
+            _rewrite_blocks(fn, rw)
+    return tree
+
+
+TRANSFORMS = {"return_via_local": return_via_local, "split_tuple_assign": split_tuple_assign, "expand_augassign": expand_augassign,
+              "listcomp_to_loop": listcomp_to_loop, "drop_else_after_return": drop_else_after_return,
+              "add_logging": add_logging, "annotate_locals": annotate_locals, "rename_self": rename_self, "flip_comparisons": flip_comparisons}
 
 
 def transform_package(name, src, dst):
